@@ -222,7 +222,9 @@ def run_matrix(case, out, fail, sc, dump=False):
     import twosigma.memento as m
 
     audit = audit_for([sc.root])
-    refroot, cfgroot = sc.path("ref"), sc.path("cfg")
+    # (directory names with characters that mean something to HTML / YAML / JSON / shells: options are paths, and
+    # a path given through a file or a template parameter is the same path as one given as an argument)
+    refroot, cfgroot = sc.path("ref"), sc.path("cfg R&D <t> %41")
     want = behaviour(reference_storage(case, refroot), [os.path.join(refroot, "data"), os.path.join(refroot, "meta")], 0, audit)
     try:
         storage, cluster = build_cluster(case, cfgroot, sc.path("files"))
